@@ -17,7 +17,8 @@ for u in U.units():
     if r['status'] != 'ok':
         continue
     n = len(r['obligations'])
-    fails = [o for o in r['obligations'] if o['status'] != 'SUCCESS']
+    fails = [o for o in r['obligations'] if o['status'] not in ('SUCCESS', 'UNKNOWN')]
+    print('   unknown: %d' % len([o for o in r['obligations'] if o['status'] == 'UNKNOWN']))
     print('   %d obligations, %d failed' % (n, len(fails)))
     for o in fails:
         print('   FAIL', o['name'], '|', o['label'] or o['desc'], '| line', o['line'])
